@@ -198,3 +198,12 @@ pub fn show_trees(old: &str, a: usize, b: usize, ins: &str) {
     println!("upd   {}", crate::walk::program(&u.ast).sexpr());
     println!("fresh {}", crate::walk::program(&f.ast).sexpr());
 }
+
+/// print the diagnostics of a text (development aid)
+pub fn show_errors(text: &str) {
+    use spl_frontend::ErrorContainer;
+    let a = AnalyzedSource::new(text.to_string());
+    for e in a.errors() {
+        println!("{:?} {:?} {}", e.0, text.get(e.0.clone()), e.1.to_string().trim());
+    }
+}
